@@ -53,6 +53,7 @@ class Contract:
         self.inline = kw.get("inline", False)
         self.lets = kw.get("lets", {})
         self.exit_lemmas = kw.get("exit_lemmas", [])
+        self.raise_lemmas = kw.get("raise_lemmas", [])
         self.entry_lemmas = kw.get("entry_lemmas", [])
         self.props = kw.get("props", [])
         self.assumed = kw.get("assumed", False)  # contract not verified against the body (outside subset)
@@ -394,17 +395,24 @@ def _run_cut(self, interp, node, st, gl):
             h.assume(reg.eval_clause(interp, h, clause))
         return h
 
+    assigned = _assigned_names(node)
+    cur.env["_cands"] = gl  # the candidates being iterated over, for all_cands(_cands, _m, ...)
     check(cur, 0, "init")
     cur = reassume(cur, 0)
     for m in range(n):
         one = GList([gl.items[m]])
+        pre = cur.copy()
         res = interp._glist_for(node, cur, one, no_cut=True)
         normal = [o for o in res if o.kind == "normal"]
         outs.extend(o for o in res if o.kind != "normal")
-        if len(normal) != 1:
-            raise Outside("cut loop iteration with several normal exits", node)
-        cur = normal[0].st
-        check(cur, m + 1, "pres")
+        for o in normal:
+            check(o.st, m + 1, "pres")
+        # continue from the state before this candidate: everything it knew is about immutable earlier values;
+        # what the iteration changed is re-introduced only through the invariant
+        cur = pre
+        for name in assigned:
+            if name not in spec.havoc:
+                cur.env.pop(name, None)
         cur = reassume(cur, m + 1)
     cur.env.pop("_m", None)
     return outs + [Outcome("normal", cur)]
